@@ -137,3 +137,50 @@ func TestHistory(t *testing.T) {
 		return
 	}})
 }
+
+// declSoup: struct bodies that mix every kind of declaration with embedded scalars, bounds and
+// validators. The evaluator decides late whether such a node is a struct or a scalar, and the
+// interplay of pending (comprehension) arcs, optional/required fields and embedded constraints is
+// where it re-enters itself (F1: {a!: 1, >1} and {if false {a: 1}, >1} overflowed the stack).
+var soupDecls = []string{
+	"a: 1", "a?: 1", "a!: 1", "#b: 2", "_c: 3", "b: a", "a: int", "a!: int", "a?: string",
+	"if false {a: 1}", "if true {a: 1}", "if x {a: 1}", "if false {a!: 1}", "if x {a!: 1}", "if false {a?: 1}", "if false {1}", "if true {>0}",
+	"for k, v in {} {(k): v}", "for v in [1] {\"k\\(v)\": v}", "for v in [] {a: v}", "for v in [1] {v}",
+	"let L = 1", "[string]: int", "[=~\"^a\"]: _", "...", "@attr(x)",
+	">1", "<5", ">=0 & <10", "!=1", "=~\"x\"", "int", "number", "string", "5", "\"s\"", "null", "_", "_|_", "[1]", "[...]", "{}", "{a: 1}", "{a?: 1}", "{>1}", "{if false {a: 1}}",
+	"int & >1", "*1 | int", "1 | 2", ">1 | string", "close({})", "#D", "y", "len(\"ab\")", "matchN(1, [>1])", "strings.MinRunes(1)", "struct.MinFields(0)", "list.MinItems(0)",
+}
+
+var soupOperands = []string{"", "", " & 3", " & 0", " & {a: 1}", " & {}", " & _", " & >2", " & \"x\"", " & {a: 1, b: 2}", " & [1]", " | 7", " & #D"}
+
+func genDeclSoup(t *rapid.T) string {
+	n := rapid.IntRange(2, 5).Draw(t, "ndecl")
+	var ds []string
+	for i := 0; i < n; i++ {
+		ds = append(ds, rapid.SampledFrom(soupDecls).Draw(t, "decl"))
+	}
+	body := "{" + strings.Join(ds, ", ") + "}"
+	var sb strings.Builder
+	src := body + rapid.SampledFrom(soupOperands).Draw(t, "operand")
+	if strings.Contains(src, "strings.") {
+		sb.WriteString("import \"strings\"\n")
+	}
+	if strings.Contains(src, "struct.") {
+		sb.WriteString("import \"struct\"\n")
+	}
+	if strings.Contains(src, "list.") {
+		sb.WriteString("import \"list\"\n")
+	}
+	sb.WriteString("x: bool\ny: int\n#D: {a?: int}\n")
+	switch rapid.IntRange(0, 3).Draw(t, "place") {
+	case 0:
+		sb.WriteString("c: " + src + "\n")
+	case 1:
+		sb.WriteString("c: " + body + "\nd: c" + rapid.SampledFrom(soupOperands).Draw(t, "operand2") + "\n")
+	case 2:
+		sb.WriteString("#C: " + src + "\nd: #C\ne: [#C, #C & _]\n")
+	default:
+		sb.WriteString("c: [..." + body + "] & [_, 3, {a: 1}]\n")
+	}
+	return sb.String()
+}
